@@ -211,7 +211,7 @@ pub fn observe(tx: &AnyTx, metx: &MultiEraTx, utxos: &UTxOs, env: &Environment, 
         _ => {}
     }
     // with overridden counters the end-to-end outcome is the `?` chain over the rule outcomes
-    let e2e = if counts_override.is_some() && !checks.is_empty() { checks.iter().map(|c| c.1.clone()).find(|c| *c != Oc::Ok).unwrap_or(Oc::Ok) } else { e2e };
+    let e2e = if counts_override.is_some() && !checks.is_empty() && !matches!(e2e, Oc::Err(1..=3)) { checks.iter().map(|c| c.1.clone()).find(|c| *c != Oc::Ok).unwrap_or(Oc::Ok) } else { e2e };
     Obs { e2e, checks, counts, size, plutus_present }
 }
 pub fn fam_name(tx: &AnyTx) -> &'static str {
